@@ -206,6 +206,22 @@ def invalid_templates(tier="quick"):
             ops[0]["expect_error"] = True
             T.append(scenario("c11/invalid/single/truncated@%d/%s" % (k, mode), "c11-invalid", [Variant("v0", st)], files=files,
                               ops=ops, init=[], depth=1, tags=["dyndep", "dyndep-invalid"]))
+    # two dyndep files: the first one carries a statement for an edge that is bound to the second
+    for mode in ("produced", "existing"):
+        dd1 = dyndep_text([("out1", [], ["x"], False), ("out2", [], [], False)])
+        dd2 = dyndep_text([("out2", [], [], False)])
+        st = [Stmt("dd1", ex=["dd1.in"], copy=True), Stmt("dd2", ex=["dd2.in"], copy=True), Stmt("x", ex=["s"]),
+              Stmt("out1", ex=["in"], oo=["dd1"], dyndep="dd1", extra_reads=["x"]),
+              Stmt("out2", ex=["in"], oo=["dd2"], dyndep="dd2"), Stmt("top", ex=["out1", "out2"])]
+        files = {"dd1.in": dd1, "dd2.in": dd2}
+        if mode == "existing":
+            st = st[2:]
+            files = {"dd1": dd1, "dd2": dd2}
+        ops = [ninja_op(j=2), ninja_op(j=1), ninja_op(targets=["out1"], j=1)]
+        for o in ops:
+            o["expect_error"] = True
+        T.append(scenario("c11/invalid/statement_for_edge_bound_to_other_file/%s" % mode, "c11-invalid", [Variant("v0", st)],
+                          files=files, ops=ops, init=[], depth=1, tags=["dyndep", "dyndep-invalid"]))
     # missing dyndep file with no rule to make it
     st = base_stmts()[1:]
     ops = [ninja_op(j=2)]
